@@ -521,8 +521,8 @@ class ThreadSuite(Suite):
     driver = None
     compare = False
     corpus_prefix = "c09_mt"
-    chunk = 4
-    timeout = 240
+    chunk = 1               # one process per case: a hang (killed by the harness's alarm) costs one case only
+    timeout = 120
     nontrivial_rule = "at least 2 producers or 2 consumers"
 
     def gen_cases(self, rng, tier):
